@@ -12,9 +12,8 @@ THEOREMS = ["Mmtk.Sched.parked_count_exact", "Mmtk.Sched.pool_count_exact", "Mmt
             "Mmtk.Sched.stranded_with_mutator_push", "Mmtk.Sched.reachable_inv", "Mmtk.Sched.step_invA",
             "Mmtk.Sched.step_invB", "Mmtk.Sched.step_invC"]
 # which failure keys belong to this property
-KEYS = ("sched:hang", "sched:panic", "sched:crash", "sched:not-enabled", "sched:shape", "sched:parked-count",
-        "sched:park-with-work", "sched:request", "sched:request-flag", "sched:all-parked-wrong",
-        "sched:truncated-group", "sched:monitor-crash", "sched:parse", "sched:unknown-packet", "sched:batch")
+KEYS = S.COMMON_KEYS + ("sched:parked-count",
+        "sched:park-with-work", "sched:request", "sched:request-flag", "sched:all-parked-wrong")
 
 META = {
     "text": "Lean model Model/Sched.lean: an interleaving transition system of the worker monitor, goals, buckets, "
